@@ -608,6 +608,32 @@ def evalModel (st : JState) (o : OpLine) : Option (List String × JWorld) :=
         some (toString out.length :: out.map (showModelItem w o.ms true) ++ posts w', w')
       | .panic _ => some (["panic"], w)
       | .ub s => some (["ub:" ++ s], w)
+  | "lendgetw" =>
+    -- look-ups by entity through one lending join, each found item visited like an iterated one: the loop of `runKeys`
+    -- over the looked-up indices that pass `JoinLendIter::get`'s test (in the mask, handle alive), in probe order
+    let mask := tupleMask w o.ms
+    let alive := fun (e : Entity) => (st.alive.get? e.id) == some e.gen
+    let probes : List (Option Entity) := o.opts.flatMap (fun (k, v) =>
+      if k == "probes" then (v.splitOn ",").map parseEntity? else [])
+    let hit : Option Entity → Bool := fun oe => match oe with
+      | some e => mask.mem e.id && alive e
+      | none => false
+    let ks := probes.filterMap (fun oe => if hit oe then oe.map (·.id) else none)
+    match runKeys f (o.ms.map (Member.open w)) ks with
+    | .ok (out, vals') =>
+      let w' := closeAll w vals'
+      let (toksRev, _) := probes.foldl (fun (acc : List String × List (Nat × List Item)) oe =>
+        match oe with
+        | none => ("bad" :: acc.1, acc.2)
+        | some _ =>
+          if hit oe then
+            match acc.2 with
+            | x :: rest => (("some:" ++ showModelItem w o.ms false x) :: acc.1, rest)
+            | [] => ("?" :: acc.1, [])
+          else ("none" :: acc.1, acc.2)) ([], out)
+      some (toksRev.reverse ++ posts w', w')
+    | .panic _ => some (["panic"], w)
+    | .ub s => some (["ub:" ++ s], w)
   | "tree" =>
     let L := tupleLayers st.lworld o.ms
     let (t, _) := parseTree ((o.opt "tree").getD "L").toList
@@ -721,6 +747,37 @@ def monitorJoin (mw : MWorld) (o : OpLine) (impl : List String) : MonOut :=
   | ["panic"] => { mw, reason := some (prop, "the join panicked") }
   | ["nohook"] => { mw }
   | _ =>
+  if o.mode == "lendgetw" then
+    -- spec: every look-up that passes (in the intersection, handle alive) shows the item as it is NOW and then visits it;
+    -- post-state = the visitor applied to the looked-up indices in order (an index looked up twice is visited twice)
+    let (body, post) := splitPost impl
+    let probes : List (Option Entity) := o.opts.flatMap (fun (k, v) =>
+      if k == "probes" then (v.splitOn ",").map parseEntity? else [])
+    if probes.length != body.length then { mw, reason := some ("C06", "lendgetw: wrong number of probe results") } else
+    let step := (probes.zip body).foldl (fun (acc : MWorld × List Nat × Option String) (oe, tok) =>
+      match acc.2.2 with
+      | some _ => acc
+      | none =>
+        if tok == "skip" then acc else
+        match oe with
+        | none => (acc.1, acc.2.1, some "unparsable probe")
+        | some e =>
+          let i := e.id
+          let inMask := i < MAXIDX + 1 && o.ms.all (specHas acc.1 i)
+          let alive := (acc.1.ents.get? i) == some e.gen
+          let ex := if inMask && alive then "some:" ++ specItem acc.1 o.ms i false else "none"
+          if tok != ex then (acc.1, acc.2.1, some s!"lend get (visiting) at {i}: impl={tok} spec={ex} (alive={alive} in_mask={inMask})")
+          else if inMask && alive then ((specApply acc.1 o.ms [i] true).1, acc.2.1 ++ [i], none)
+          else acc) (mw, [], none)
+    match step.2.2 with
+    | some why => { mw, reason := some ("C06", why) }
+    | none =>
+      let (mw', posts) := specApply mw o.ms step.2.1 true
+      let exPost := if posts.isEmpty then [] else ";" :: posts.flatMap showPost
+      if post != exPost then
+        { mw := mw', reason := some ("C06", s!"post-state after the look-ups differs: impl={" ".intercalate post} spec={" ".intercalate exPost}"), keys := step.2.1 }
+      else { mw := mw', keys := step.2.1 }
+  else
   if o.mode == "lendget" then
     -- one result token per probe, probes in option order
     let probes : List (Option Entity × Nat) := o.opts.flatMap (fun (k, v) =>
